@@ -203,11 +203,22 @@ EXPORT errno_t _wcsrtombs_s_chk(size_t *restrict retvalp, char *restrict dest,
 
     /* never let libc store more than dmax bytes */
     if (dest && len > dmax) {
+        /* a result of dmax bytes or more cannot be terminated inside dest */
+        const wchar_t *s2 = *srcp;
+        mbstate_t ps2;
+        size_t need;
+        memcpy(&ps2, ps, sizeof(ps2));
+        need = wcsrtombs(NULL, &s2, 0, &ps2);
         len = dmax;
+        l = *retvalp = wcsrtombs(dest, srcp, len, ps);
+        if (l != (size_t)-1 && need != (size_t)-1 && need >= dmax) {
+            l = *retvalp = dmax;
+        }
+    } else {
+        l = *retvalp = wcsrtombs(dest, srcp, len, ps);
     }
-    l = *retvalp = wcsrtombs(dest, srcp, len, ps);
 
-    if (likely(l > 0 && l < dmax)) {
+    if (likely(l < dmax)) {
 #ifdef SAFECLIB_STR_NULL_SLACK
         if (dest) {
             memset(&dest[l], 0, dmax - l);
